@@ -427,4 +427,325 @@ theorem goEquals_enc : ∀ (fuel : Nat) (ss : Schemas) (t : Ty) (a b : GoVal),
       exact encUnion_canon ih sh fields _ _ wx.1 wy.1 nx h
     case alias t' => exact ih t' a b ha hb na hab
 
+/-! ### values with the same encoding are equal -/
+
+theorem leafEq_of_enc {k : String} {dt : Bool} {x y : GoVal} (hx : leafOk k dt x = true)
+    (hy : leafOk k dt y = true) (ht : timesShared x = true) (he : goEncode x = goEncode y) :
+    leafEq x y = true := by
+  unfold leafOk at hx hy
+  repeat' split at hx
+  all_goals (first | (cases hx; done) | skip)
+  all_goals (cases y <;> simp_all [leafEq, goEncode, timesShared])
+  all_goals omega
+
+theorem leaf_enc_ne_null {x : GoVal} (h : isLeafVal x = true) : goEncode x ≠ .null := by
+  cases x <;> simp_all [isLeafVal, goEncode]
+
+theorem ifaceEnc_null {j : Json} (h : ifaceEnc j = .null) : j = .null := by
+  cases j <;> simp_all [ifaceEnc]
+
+theorem ptrEq_of_enc {nullable : Bool} {eq al : GoVal → GoVal → Bool} {oka okb : GoVal → Bool}
+    {a b : GoVal}
+    (ha : ptrOk nullable oka a = true) (hb : ptrOk nullable okb b = true)
+    (hta : timesShared a = true) (hal : ptrBoth nullable al a b = true)
+    (nna : ∀ x, oka x = true → goEncode x ≠ .null) (nnb : ∀ y, okb y = true → goEncode y ≠ .null)
+    (ih : ∀ x y, oka x = true → okb y = true → timesShared x = true → al x y = true →
+      goEncode x = goEncode y → eq x y = true)
+    (he : goEncode a = goEncode b) : ptrEq nullable eq a b = true := by
+  cases nullable
+  · simp only [ptrOk, ptrBoth, ptrEq, Bool.false_eq_true, if_false] at *
+    exact ih a b ha hb hta hal he
+  · cases a <;> simp [ptrOk] at ha <;> cases b <;> simp [ptrOk] at hb <;> simp only [ptrEq, if_true]
+    case nil.ptr y => exact absurd he.symm (nnb y hb)
+    case ptr.nil x => exact absurd he (nna x ha)
+    case ptr.ptr x y =>
+      simp only [ptrBoth, if_true] at hal
+      exact ih x y ha hb (by simpa [timesShared] using hta) hal he
+
+theorem eqList_of_enc {f al : GoVal → GoVal → Bool} {w : GoVal → Bool}
+    (ih : ∀ x y, w x = true → w y = true → timesShared x = true → al x y = true →
+      goEncode x = goEncode y → f x y = true) :
+    ∀ xs ys, allList w xs = true → allList w ys = true → timesSharedList xs = true →
+      alignedList al xs ys = true → encList xs = encList ys → eqList f xs ys = true
+  | [], [], _, _, _, _, _ => rfl
+  | [], _ :: _, _, _, _, _, h => by simp [encList] at h
+  | _ :: _, [], _, _, _, _, h => by simp [encList] at h
+  | x :: xs, y :: ys, wx, wy, tx, al', h => by
+    simp only [allList, timesSharedList, alignedList, encList, List.cons.injEq,
+      Bool.and_eq_true] at *
+    simp only [eqList, Bool.and_eq_true]
+    exact ⟨ih x y wx.1 wy.1 tx.1 al'.1 h.1, eqList_of_enc ih xs ys wx.2 wy.2 tx.2 al'.2 h.2⟩
+
+theorem wtFields_key {w : Ty → GoVal → Bool} {k : String} {om : Bool} {v : GoVal} :
+    ∀ {fields : List Field} {xs : List (String × Bool × GoVal)}, wtFields w fields xs = true →
+      (k, om, v) ∈ xs → k ∈ fields.map (·.name)
+  | [], [], _, h => by simp at h
+  | [], _ :: _, h, _ => by simp [wtFields] at h
+  | _ :: _, [], _, h => by simp at h
+  | fd :: fds, (k1, o1, x1) :: xs, hw, h => by
+    simp only [wtFields, Bool.and_eq_true, beq_iff_eq] at hw
+    cases List.mem_cons.1 h with
+    | inl e => cases e; simp [hw.1.1.1]
+    | inr e => exact List.mem_cons_of_mem _ (wtFields_key hw.2 e)
+
+theorem mem_encFields {k : String} {j : Json} :
+    ∀ {fs : List (String × Bool × GoVal)}, (k, j) ∈ encFields fs → ∃ om v, (k, om, v) ∈ fs
+  | [], h => by simp [encFields] at h
+  | (k1, o1, x1) :: t, h => by
+    simp only [encFields] at h
+    split at h
+    · obtain ⟨om, v, hm⟩ := mem_encFields h
+      exact ⟨om, v, List.mem_cons_of_mem _ hm⟩
+    · cases List.mem_cons.1 h with
+      | inl e => cases e; exact ⟨o1, x1, by simp⟩
+      | inr e =>
+        obtain ⟨om, v, hm⟩ := mem_encFields e
+        exact ⟨om, v, List.mem_cons_of_mem _ hm⟩
+
+theorem eqFields_of_enc {f al : Ty → GoVal → GoVal → Bool} {w : Ty → GoVal → Bool}
+    (ih : ∀ t x y, w t x = true → w t y = true → timesShared x = true → al t x y = true →
+      goEncode x = goEncode y → f t x y = true)
+    (emp : ∀ t x y, w t x = true → w t y = true → isEmpty x = true → isEmpty y = true →
+      f t x y = true) :
+    ∀ fields xs ys, (fields.map (·.name)).Nodup →
+      wtFields w fields xs = true → wtFields w fields ys = true →
+      timesSharedFields xs = true → alignedFields al fields xs ys = true →
+      encFields xs = encFields ys → eqFields f fields xs ys = true
+  | [], [], [], _, _, _, _, _, _ => rfl
+  | [], _ :: _, _, _, h, _, _, _, _ => by simp [wtFields] at h
+  | [], [], _ :: _, _, _, h, _, _, _ => by simp [wtFields] at h
+  | _ :: _, [], _, _, h, _, _, _, _ => by simp [wtFields] at h
+  | _ :: _, _ :: _, [], _, _, h, _, _, _ => by simp [wtFields] at h
+  | fd :: fds, (kx, ox, x) :: xs, (ky, oy, y) :: ys, nd, wx, wy, tx, al', h => by
+    simp only [wtFields, timesSharedFields, alignedFields, Bool.and_eq_true, beq_iff_eq,
+      List.map_cons, List.nodup_cons] at nd wx wy tx al'
+    obtain ⟨⟨⟨ekx, eox⟩, wx1⟩, wx2⟩ := wx
+    obtain ⟨⟨⟨eky, eoy⟩, wy1⟩, wy2⟩ := wy
+    subst ekx; subst eky
+    rw [eoy] at h; rw [eox] at h
+    simp only [eqFields, Bool.and_eq_true]
+    have rec_ := eqFields_of_enc ih emp fds xs ys nd.2 wx2 wy2 tx.2 al'.2
+    simp only [encFields] at h
+    by_cases c1 : (!fd.required && isEmpty x) = true <;> by_cases c2 : (!fd.required && isEmpty y) = true
+    · simp only [c1, c2, if_true] at h
+      simp only [Bool.and_eq_true] at c1 c2
+      exact ⟨emp _ x y wx1 wy1 c1.2 c2.2, rec_ h⟩
+    · simp only [c1, c2, if_true] at h
+      exfalso
+      have : (fd.name, goEncode y) ∈ encFields xs := by rw [h]; simp
+      obtain ⟨om, v, hm⟩ := mem_encFields this
+      exact nd.1 (wtFields_key wx2 hm)
+    · simp only [c1, c2, if_true] at h
+      exfalso
+      have : (fd.name, goEncode x) ∈ encFields ys := by rw [← h]; simp
+      obtain ⟨om, v, hm⟩ := mem_encFields this
+      exact nd.1 (wtFields_key wy2 hm)
+    · simp only [c1, c2, Bool.false_eq_true, if_false, List.cons.injEq, Prod.mk.injEq, true_and] at h
+      exact ⟨ih _ x y wx1 wy1 tx.1 al'.1 h.1, rec_ h.2⟩
+
+theorem eqBranches_all_nil {f : Ty → GoVal → GoVal → Bool} {w : Ty → GoVal → Bool}
+    (nilrefl : ∀ t, w t .nil = true → f t .nil .nil = true) :
+    ∀ fields xs ys, wtBranches w fields xs = true → wtBranches w fields ys = true →
+      liveBranches xs = 0 → liveBranches ys = 0 → eqBranches f fields xs ys = true
+  | [], [], [], _, _, _, _ => rfl
+  | [], _ :: _, _, h, _, _, _ => by simp [wtBranches] at h
+  | [], [], _ :: _, _, h, _, _ => by simp [wtBranches] at h
+  | _ :: _, [], _, h, _, _, _ => by simp [wtBranches] at h
+  | _ :: _, _ :: _, [], _, h, _, _ => by simp [wtBranches] at h
+  | fd :: fds, (kx, x) :: xs, (ky, y) :: ys, wx, wy, lx, ly => by
+    simp only [wtBranches, Bool.and_eq_true] at wx wy
+    simp only [liveBranches] at lx ly
+    have hx : x = .nil := by cases x <;> simp_all [isNil]
+    have hy : y = .nil := by cases y <;> simp_all [isNil]
+    subst hx; subst hy
+    simp only [eqBranches, Bool.and_eq_true]
+    exact ⟨nilrefl _ wx.1.2, eqBranches_all_nil nilrefl fds xs ys wx.2 wy.2
+      (by simpa [isNil] using lx) (by simpa [isNil] using ly)⟩
+
+theorem eqBranches_of_enc {f al : Ty → GoVal → GoVal → Bool} {w : Ty → GoVal → Bool}
+    (ih : ∀ t x y, w t x = true → w t y = true → timesShared x = true → al t x y = true →
+      goEncode x = goEncode y → f t x y = true)
+    (nilrefl : ∀ t, w t .nil = true → f t .nil .nil = true) :
+    ∀ fields xs ys, wtBranches w fields xs = true → wtBranches w fields ys = true →
+      liveBranches xs ≤ 1 → liveBranches ys ≤ 1 →
+      timesSharedKvs xs = true → alignedBranches al fields xs ys = true →
+      encUnion xs = encUnion ys → eqBranches f fields xs ys = true
+  | [], [], [], _, _, _, _, _, _, _ => rfl
+  | [], _ :: _, _, h, _, _, _, _, _, _ => by simp [wtBranches] at h
+  | [], [], _ :: _, _, h, _, _, _, _, _ => by simp [wtBranches] at h
+  | _ :: _, [], _, h, _, _, _, _, _, _ => by simp [wtBranches] at h
+  | _ :: _, _ :: _, [], _, h, _, _, _, _, _ => by simp [wtBranches] at h
+  | fd :: fds, (kx, x) :: xs, (ky, y) :: ys, wx, wy, lx, ly, tx, al', h => by
+    simp only [wtBranches, timesSharedKvs, alignedBranches, Bool.and_eq_true, beq_iff_eq] at wx wy tx al'
+    simp only [liveBranches] at lx ly
+    simp only [encUnion] at h
+    simp only [eqBranches, Bool.and_eq_true]
+    by_cases hx : x.isNil = true
+    · have hy : y.isNil = true := by rw [← al'.1.1]; exact hx
+      have ex : x = .nil := by cases x <;> simp_all [isNil]
+      have ey : y = .nil := by cases y <;> simp_all [isNil]
+      subst ex; subst ey
+      simp only [isNil, if_true] at h lx ly
+      exact ⟨nilrefl _ wx.1.2, eqBranches_of_enc ih nilrefl fds xs ys wx.2 wy.2
+        (by omega) (by omega) tx.2 al'.2 h⟩
+    · have hy : ¬ y.isNil = true := by rw [← al'.1.1]; exact hx
+      simp only [hx, hy, Bool.false_eq_true, if_false] at h lx ly
+      exact ⟨ih _ x y wx.1.2 wy.1.2 tx.1 al'.1.2 h,
+        eqBranches_all_nil nilrefl fds xs ys wx.2 wy.2 (by omega) (by omega)⟩
+
+theorem alignedEntries_mem {f : GoVal → GoVal → Bool} {other : List (String × GoVal)} {k : String}
+    {x y : GoVal} : ∀ {l : List (String × GoVal)}, alignedEntries f other l = true → (k, x) ∈ l →
+      lookupV k other = some y → f x y = true
+  | [], _, h, _ => by simp at h
+  | (k1, x1) :: t, ha, h, hl => by
+    simp only [alignedEntries, Bool.and_eq_true] at ha
+    cases List.mem_cons.1 h with
+    | inl e => cases e; rw [hl] at ha; exact ha.1
+    | inr e => exact alignedEntries_mem ha.2 e hl
+
+/-- two empty (`omitempty`) values of the same type are equal -/
+theorem goEquals_of_isEmpty : ∀ (fuel : Nat) (ss : Schemas) (t : Ty) (a b : GoVal),
+    wt fuel ss t a = true → wt fuel ss t b = true → isEmpty a = true → isEmpty b = true →
+    goEquals fuel ss t a b = true
+  | 0, _, _, _, _, h, _, _, _ => by simp [wt] at h
+  | fuel + 1, ss, t, a, b, ha, hb, ea, eb => by
+    unfold wt at ha hb
+    unfold goEquals
+    cases hcl : classify ss t <;> simp only [hcl] at ha hb ⊢
+    case unsup => cases ha
+    case any => cases a <;> simp_all [isEmpty] <;> cases b <;> simp_all [isEmpty, deepEqual]
+    case leaf kind dt nullable =>
+      cases nullable
+      · simp only [ptrOk, ptrEq, Bool.false_eq_true, if_false] at *
+        unfold leafOk at ha hb
+        repeat' split at ha
+        all_goals (first | (cases ha; done) | skip)
+        all_goals (cases b <;> simp_all [leafEq, isEmpty])
+      · cases a <;> simp_all [isEmpty, ptrOk] <;> cases b <;> simp_all [isEmpty, ptrEq]
+    case arr e =>
+      cases a <;> simp_all [isEmpty] <;> cases b <;> simp_all [isEmpty, elems, eqList]
+    case map e =>
+      cases a <;> simp_all [isEmpty] <;> cases b <;> simp_all [isEmpty, entries, eqEntries]
+    case struct fields nullable =>
+      cases nullable
+      · simp only [ptrOk, Bool.false_eq_true, if_false] at ha
+        cases a <;> simp_all [isEmpty]
+      · cases a <;> simp_all [isEmpty, ptrOk] <;> cases b <;> simp_all [isEmpty, ptrEq]
+    case union fields nullable =>
+      cases nullable
+      · simp only [ptrOk, Bool.false_eq_true, if_false] at ha
+        cases a <;> simp_all [isEmpty]
+      · cases a <;> simp_all [isEmpty, ptrOk] <;> cases b <;> simp_all [isEmpty, ptrEq]
+    case alias t' => exact goEquals_of_isEmpty fuel ss t' a b ha hb ea eb
+
+theorem goEquals_of_enc : ∀ (fuel : Nat) (ss : Schemas) (t : Ty) (a b : GoVal),
+    wt fuel ss t a = true → wt fuel ss t b = true → timesShared a = true →
+    unionsAligned fuel ss t a b = true → goEncode a = goEncode b → goEquals fuel ss t a b = true
+  | 0, _, _, _, _, h, _, _, _, _ => by simp [wt] at h
+  | fuel + 1, ss, t, a, b, ha, hb, ta, al, he => by
+    have ih := goEquals_of_enc fuel ss
+    have emp := goEquals_of_isEmpty fuel ss
+    have nilrefl : ∀ t, wt fuel ss t .nil = true → goEquals fuel ss t .nil .nil = true :=
+      fun t h => goEquals_refl fuel ss t .nil h rfl
+    unfold wt at ha hb
+    unfold unionsAligned at al
+    unfold goEquals
+    cases hcl : classify ss t <;> simp only [hcl] at ha hb al ⊢
+    case unsup => cases ha
+    case any =>
+      cases a <;> simp at ha <;> cases b <;> simp at hb <;> simp only [deepEqual]
+      case nil.iface j => simp only [goEncode] at he; exact absurd (ifaceEnc_null he.symm) (by intro c; subst c; simp [Json.isNull] at hb)
+      case iface.nil j => simp only [goEncode] at he; exact absurd (ifaceEnc_null he) (by intro c; subst c; simp [Json.isNull] at ha)
+      case iface.iface j1 j2 => simp only [goEncode] at he; rw [he]; exact jbeq_refl _
+    case leaf kind dt nullable =>
+      refine ptrEq_of_enc (al := fun _ _ => true) ha hb ta ?_ ?_ ?_ ?_ he
+      · cases nullable <;> cases a <;> cases b <;> simp [ptrBoth]
+      · exact fun x hx => leaf_enc_ne_null (leafOk_isLeaf hx)
+      · exact fun x hx => leaf_enc_ne_null (leafOk_isLeaf hx)
+      · exact fun x y hx hy tx _ h => leafEq_of_enc hx hy tx h
+    case arr e =>
+      cases a <;> simp at ha <;> cases b <;> simp at hb <;> simp only [elems]
+      case nil.nil => rfl
+      case nil.slice ys => simp [goEncode] at he
+      case slice.nil xs => simp [goEncode] at he
+      case slice.slice xs ys =>
+        simp only [goEncode, Json.arr.injEq] at he
+        exact eqList_of_enc (ih e) xs ys ha hb (by simpa [timesShared] using ta) al he
+    case map e =>
+      cases a <;> simp at ha <;> cases b <;> simp at hb <;> simp only [entries]
+      case nil.nil => rfl
+      case nil.gomap ys => simp [goEncode] at he
+      case gomap.nil xs => simp [goEncode] at he
+      case gomap.gomap xs ys =>
+        simp only [goEncode, Json.obj.injEq] at he
+        have dx := (nodupKeys_iff _).1 ha.1
+        have dy := (nodupKeys_iff _).1 hb.1
+        have look := encMap_lookup_eq he
+        have sub : keysOf xs ⊆ keysOf ys := by
+          intro k hk
+          obtain ⟨v, lv⟩ := lookupV_some_of_key hk
+          have := look k
+          rw [lv] at this
+          cases ly : lookupV k ys with
+          | none => rw [ly] at this; simp at this
+          | some v' => exact mem_keysOf (mem_of_lookupV ly)
+        have sub' : keysOf ys ⊆ keysOf xs := by
+          intro k hk
+          obtain ⟨v, lv⟩ := lookupV_some_of_key hk
+          have := look k
+          rw [lv] at this
+          cases lx : lookupV k xs with
+          | none => rw [lx] at this; simp at this
+          | some v' => exact mem_keysOf (mem_of_lookupV lx)
+        have hlen : xs.length = ys.length := by
+          have h1 := List.Nodup.length_le_of_subset dx sub
+          have h2 := List.Nodup.length_le_of_subset dy sub'
+          rw [keysOf_length, keysOf_length] at h1 h2
+          omega
+        simp only [Bool.and_eq_true, beq_iff_eq]
+        refine ⟨hlen, eqEntries_iff.2 fun k v hm => ?_⟩
+        have lv := lookupV_of_mem dx hm
+        have := look k
+        rw [lv] at this
+        cases ly : lookupV k ys with
+        | none => rw [ly] at this; simp at this
+        | some v' =>
+          rw [ly] at this
+          simp only [Option.map_some, Option.some.injEq] at this
+          simp only [Option.getD_some]
+          exact ih e v v' (allVals_mem ha.2 hm) (allVals_mem hb.2 (mem_of_lookupV ly))
+            (timesSharedKvs_mem (by simpa [timesShared] using ta) hm)
+            (alignedEntries_mem al hm ly) this
+    case struct fields nullable =>
+      refine ptrEq_of_enc ha hb ta al ?_ ?_ ?_ he
+      · intro x hx; cases x <;> simp at hx; simp [goEncode]
+      · intro x hx; cases x <;> simp at hx; simp [goEncode]
+      · intro x y hx hy tx hal h
+        cases x <;> simp at hx; cases y <;> simp at hy
+        simp only [goEncode, Json.obj.injEq] at h
+        simp only [structEq]
+        exact eqFields_of_enc ih emp fields _ _ ((nodupKeys_iff _).1 hx.1) hx.2 hy.2
+          (by simpa [timesShared] using tx) hal h
+    case union fields nullable =>
+      simp only [Bool.and_eq_true, beq_iff_eq] at al
+      cases nullable
+      · simp only [ptrOk, ptrBoth, ptrEq, Bool.false_eq_true, if_false] at *
+        cases a <;> simp at ha; cases b <;> simp at hb
+        simp only [goEncode] at he
+        simp only [unionEq]
+        exact eqBranches_of_enc ih nilrefl fields _ _ ha.1 hb.1 ha.2 hb.2
+          (by simpa [timesShared] using ta) al.2 he
+      · cases a <;> simp [ptrOk] at ha <;> cases b <;> simp [ptrOk] at hb <;>
+          simp only [ptrEq, if_true]
+        case nil.ptr y => simp [isNil] at al
+        case ptr.nil x => simp [isNil] at al
+        case ptr.ptr x y =>
+          simp only [ptrBoth, if_true] at al
+          cases x <;> simp at ha; cases y <;> simp at hb
+          simp only [goEncode] at he
+          simp only [unionEq]
+          exact eqBranches_of_enc ih nilrefl fields _ _ ha.1 hb.1 ha.2 hb.2
+            (by simpa [timesShared] using ta) al.2 he
+    case alias t' => exact ih t' a b ha hb ta al he
+
 end Cog.Sem
